@@ -1,8 +1,9 @@
 import copy
 import json
 from propbase import Prop, COMMON_TRUSTED, drop_one
-from coqterm import cbool, cZ, clist
-from mw_common import Broken, c_op, c_obs, c_desc, strip_outputs, simpler_msgs, count_ops, fewer_ops
+from coqterm import cbool, cZ, cnat, clist
+from mw_common import (Broken, c_obs, c_desc, c_life_history, strip_outputs, simpler_msgs, count_ops, fewer_ops,
+                       fewer_connections, count_life, unusual_created_at, is_life)
 
 LIM_FIELDS = ("max_subscriptions", "max_filters", "max_limit", "max_subid_length", "max_event_tags",
               "max_content_length", "created_at_lower_limit", "created_at_upper_limit")
@@ -34,7 +35,12 @@ class C17(Prop):
             "every subset of the seven limits, a few negative counts), each driven through the real NewSimpleMiddleware "
             "goroutines with 6..14 operations: client EVENT/REQ/COUNT/CLOSE/AUTH with 0..4 filters, per-filter limit "
             "absent or 0..4, subscription ids of 1..4 bytes, 0..4 tags, content of 0..4 ASCII bytes or 10 bytes, created_at "
-            "at now +- limit +- {5,60} s only, and all seven server message types in between; a case is non-trivial when at "
+            "at now +- limit +- {5,60} s, and in 12% of the events any int64 the implementation can represent: MinInt64, "
+            "MinInt64+1, both sides of now-MaxInt64 (where an int64 difference wraps), -2^62, -2^53, now -+ 292 years +- 60 s "
+            "(time.Duration saturation), year 1, -2^31-1, -1, 0, 1, 2^31-1, 2^31, 2^32, 2^53, 2^62, MaxInt64-62135596800; all "
+            "seven server message types in between; in a quarter of the cases the one middleware value serves up to three "
+            "connections, two at a time, that begin and end (without tidying up) during the history, so that a later "
+            "connection meets whatever an earlier one left; a case is non-trivial when at "
             "least one client message was forwarded and at least one was answered; distinct = distinct inputs")
     trusted_base = COMMON_TRUSTED + [
         "the harness's sentinel protocol (a reserved CLOSE that every middleware forwards, answered by a reserved NOTICE) "
@@ -42,6 +48,9 @@ class C17(Prop):
     ]
     assumptions = [
         "time: the model compares whole seconds; the harness keeps created_at at least 4 s away from every moving boundary",
+        "created_at <= MaxInt64 - 62135596800 (9223371974719179007): above it time.Unix wraps its internal offset and the "
+        "implementation takes the event for one of the remote past (the lower limit rejects it, the upper limit passes it); "
+        "not claimed, not generated (corpus/C17/pending/created_at_beyond_time_unix.jsonl shows it)",
         "created_at limits below 2^63/10^9 s (beyond that time.Duration(x)*time.Second wraps); counts in the NIP-11 "
         "document non-negative (a negative count makes the constructor panic: modelled, not claimed)",
         "the matcher of the allow/deny filter is NewReqFiltersEventLimitMatcher (model of C02); events have no empty tag",
@@ -50,18 +59,21 @@ class C17(Prop):
     ]
     signatures = {
         "nip11_no_limitation_block": lambda c: c.get("k") == "nip11" and c.get("doc") == "nolim",
+        "created_at_beyond_time_unix": lambda c: any(
+            ((o.get("c") or {}).get("e") or {}).get("ts", 0) > 9223371974719179007 for o in c.get("ops") or []),
     }
 
     def to_coq(self, I, c):
         try:
-            ops = clist(c.get("ops") or [], lambda o: c_op(I, o), "op")
+            h = c_life_history(I, c.get("ops") or [])
             obs = clist(c.get("obs") or [], lambda o: c_obs(I, o), "obs")
             built = cbool(c.get("built") == "ok")
             now = cZ(c.get("now", 0))
+            n = cnat(c.get("nsess") or 1)
             if c["k"] == "stack":
-                return "(CStack %s %s %s %s %s)" % (now, clist(c.get("mws") or [], lambda s: c_desc(I, s), "mwdesc"),
-                                                  ops, built, obs)
-            return "(CNip11 %s %s %s %s %s)" % (now, _doc(c), ops, built, obs)
+                return "(CStack %s %s %s %s %s %s)" % (now, clist(c.get("mws") or [], lambda s: c_desc(I, s), "mwdesc"),
+                                                     n, h, built, obs)
+            return "(CNip11 %s %s %s %s %s %s)" % (now, _doc(c), n, h, built, obs)
         except Broken:
             return "CBroken"
 
@@ -81,6 +93,8 @@ class C17(Prop):
 
     def shrink(self, c):
         c = strip_outputs(c)
+        if (c.get("nsess") or 1) > 1:
+            yield from fewer_connections(c)
         for ops in fewer_ops(c.get("ops") or []):
             yield dict(c, ops=ops)
         if c["k"] == "stack" and len(c.get("mws") or []) > 1:
@@ -96,8 +110,8 @@ class C17(Prop):
             yield dict(c, ops=ops)
 
     def summarize(self, c):
-        return {"k": c.get("k"), "mws": c.get("mws"), "doc": c.get("doc"), "lim": c.get("lim"),
-                "n_ops": len(c.get("ops") or []), "built": c.get("built")}
+        return {"k": c.get("k"), "mws": c.get("mws"), "doc": c.get("doc"), "lim": c.get("lim"), "slots": c.get("nsess") or 1,
+                "n_ops": len([o for o in c.get("ops") or [] if not is_life(o)]), "built": c.get("built")}
 
     def distribution(self, cases):
         d = {"stacks": 0, "nip11_docs": 0, "nip11_nil": 0, "nip11_no_limitation": 0, "nip11_subsets_seen": 0,
@@ -123,6 +137,9 @@ class C17(Prop):
                     l = c.get("lim") or {}
                     subsets.add(tuple(bool(l.get(k)) for k in LIM_FIELDS if k != "max_subid_length"))
         d["nip11_subsets_seen"] = len(subsets)
+        d["cases_with_several_connections"] = sum(1 for c in cases if (c.get("nsess") or 1) > 1)
+        count_life(cases, d)
+        unusual_created_at(cases, d)
         return count_ops(cases, d)
 
 
